@@ -8,11 +8,15 @@
  *   ctxo <explicit 0|1> <repo> <op> <op> ...      the same, plus a second (shadow) context that only gets the
  *                                                 operations that succeeded in the first one, plus data trees
  *   ctxint                                        table of the internal modules of a new context
- *   ctxr <explicit 0|1> <repo> <op> <op> ...      richer modules (no model counterpart): a repo entry has a fifth part
+ *   ctxr <flags> <repo> <op> <op> ...             flags: 1 LY_CTX_EXPLICIT_COMPILE, 2 LY_CTX_ENABLE_IMP_FEATURES,
+ *                                                 4 LY_CTX_REF_IMPLEMENTED, 8 LY_CTX_ALL_IMPLEMENTED (sum);
+ *                                                 richer modules (no model counterpart): a repo entry has a fifth part
  *                                                 <extras> = `-` or comma list of  d<k> identity derived from import k's base,
  *                                                 s<name> submodule importing module <name> with an identity derived from its
  *                                                 base, a<k> augment of import k's container, n<k><j> augment into the node
- *                                                 import j's augment adds to import k, v<k> deviation of import k. Output per
+ *                                                 import j's augment adds to import k, v<k> deviation of import k, r<k> leafref
+ *                                                 into import k (implements it), w<k> must referring to import k (implements
+ *                                                 it with LY_CTX_REF_IMPLEMENTED). `*` after I/i: to_compile or not compiled yet. Output per
  *                                                 op: <ok|E|nomod>;<module> ...;L:..;M:.. S<=|!|.> with <module> =
  *                                                 <name><rev><I|i>{features}id[<identity>(<derived>..)..]ab[..]db[..]c=<hash|->
  *                                                 (identities[].derived, augmented_by, deviated_by, compiled YANG print)
@@ -24,8 +28,8 @@
  *   fault   0 none, 1 syntax error, 2 duplicate feature (detected after the imports were resolved),
  *           3 node that does not compile (lys_compile fails), 4 leafref without target (fails when the dep set
  *           is resolved), 5 list key under if-feature <first feature> (fails when resolved unless it is enabled)
- *   The import callback serves these texts: with a revision exactly that entry, without one the FIRST entry
- *   of the name.
+ *   The import callback serves these texts: without a revision the FIRST entry of the name; with a revision exactly
+ *   that entry, or (sloppy) the first entry of the name when the repository does not have that revision.
  * <op> (space separated words):
  *   P <i> <fault|-> <features>     lys_parse() of the text of repo entry i (fault: override of the entry's own)
  *   L <name> <rev> <features>      ly_ctx_load_module(name, revision or NULL, features)
@@ -79,7 +83,7 @@ struct mdesc {
     } feat[MAXFEAT];
     int fault;
     /* ctxr only */
-    unsigned derive, augment, deviate;  /* bit k: import k */
+    unsigned derive, augment, deviate, lref, mustref;  /* bit k: import k */
     int nnest;
     struct {
         int k, j;
@@ -166,6 +170,10 @@ parse_mdesc(char *s, struct mdesc *d)
                 d->augment |= 1u << (p[1] - '0');
             } else if ((p[0] == 'v') && isdigit((unsigned char)p[1])) {
                 d->deviate |= 1u << (p[1] - '0');
+            } else if ((p[0] == 'r') && isdigit((unsigned char)p[1])) {
+                d->lref |= 1u << (p[1] - '0');
+            } else if ((p[0] == 'w') && isdigit((unsigned char)p[1])) {
+                d->mustref |= 1u << (p[1] - '0');
             } else if ((p[0] == 'n') && isdigit((unsigned char)p[1]) && isdigit((unsigned char)p[2]) && (d->nnest < 2)) {
                 d->nest[d->nnest].k = p[1] - '0';
                 d->nest[d->nnest].j = p[2] - '0';
@@ -379,6 +387,14 @@ gen_text_rich(const struct mdesc *d, int fault)
     for (i = 0; i < d->nfeat; ++i) {
         sb_fmt(&b, "    leaf x_%s { if-feature %s; type string; }\n", d->feat[i].name, d->feat[i].name);
     }
+    for (i = 0; i < d->nimp; ++i) {
+        if (d->lref & (1u << i)) {
+            sb_fmt(&b, "    leaf lr%d { type leafref { path \"/p%d:c/p%d:base\"; } }\n", i, i, i);
+        }
+        if (d->mustref & (1u << i)) {
+            sb_fmt(&b, "    leaf mu%d { type string; must \"/p%d:c/p%d:base\"; }\n", i, i, i);
+        }
+    }
     sb_fmt(&b, "  }\n");
     for (i = 0; i < d->nimp; ++i) {
         if (d->augment & (1u << i)) {
@@ -459,6 +475,10 @@ imp_clb(const char *mod_name, const char *mod_rev, const char *submod_name, cons
             if (!strcmp(mod_rev, DATES[r])) {
                 d = repo_find(mod_name[0], r, 0);
             }
+        }
+        if (!d) {
+            /* a sloppy callback: another revision of the module than the one asked for */
+            d = repo_find(mod_name[0], 0, 1);
         }
     } else {
         d = repo_find(mod_name[0], 0, 1);
@@ -850,19 +870,48 @@ cmp_str(const void *a, const void *b)
     return strcmp(*(char * const *)a, *(char * const *)b);
 }
 
+/* a compiled leafref that was never resolved (the YANG printer dereferences its NULL realtype) */
+static LY_ERR
+null_realtype_cb(struct lysc_node *node, void *data, ly_bool *dfs_continue)
+{
+    const struct lysc_type *t = NULL;
+
+    (void)dfs_continue;
+    if (node->nodetype == LYS_LEAF) {
+        t = ((struct lysc_node_leaf *)node)->type;
+    } else if (node->nodetype == LYS_LEAFLIST) {
+        t = ((struct lysc_node_leaflist *)node)->type;
+    }
+    if (!t && (node->nodetype & (LYS_LEAF | LYS_LEAFLIST))) {
+        *(int *)data = 1;
+    } else if (t && (t->basetype == LY_TYPE_LEAFREF) && !((struct lysc_type_leafref *)t)->realtype) {
+        *(int *)data = 1;
+    }
+    return LY_SUCCESS;
+}
+
 static void
 print_obs_rich(struct ly_ctx *ctx, struct sbuf *o)
 {
     uint32_t i = ly_ctx_internal_modules_count(ctx);
     struct lys_module *m;
     LY_ARRAY_COUNT_TYPE u, v;
-    int firstm = 1, k;
+    int firstm = 1, k, unsafe = 0;
     char nm[2] = {0, 0};
 
+    /* an implemented module without a compiled tree: compiled modules may have leafrefs into it that are not resolved
+     * (the YANG printer dereferences their NULL realtype), so nothing is printed (c=~) */
+    while ((m = ly_ctx_get_module_iter(ctx, &i))) {
+        if (m->implemented && !m->compiled) {
+            unsafe = 1;
+        }
+    }
+    i = ly_ctx_internal_modules_count(ctx);
     while ((m = ly_ctx_get_module_iter(ctx, &i))) {
         char *s = NULL;
 
-        sb_fmt(o, "%s%s%d%c{", firstm ? "" : " ", m->name, rev_of_mod(m), m->implemented ? 'I' : 'i');
+        sb_fmt(o, "%s%s%d%c%s{", firstm ? "" : " ", m->name, rev_of_mod(m), m->implemented ? 'I' : 'i',
+                (m->to_compile || (m->implemented && !m->compiled)) ? "*" : "");
         firstm = 0;
         LY_ARRAY_FOR(m->parsed->features, u) {
             sb_fmt(o, "%s%s%c", u ? "," : "", m->parsed->features[u].name,
@@ -899,7 +948,15 @@ print_obs_rich(struct ly_ctx *ctx, struct sbuf *o)
             sb_fmt(o, "%s%s", u ? "," : "", m->deviated_by[u]->name);
         }
         sb_fmt(o, "]c=");
-        if (m->implemented && m->compiled && !lys_print_mem(&s, m, LYS_OUT_YANG_COMPILED, 0) && s) {
+        k = 0;
+        if (m->compiled) {
+            lysc_module_dfs_full(m, null_realtype_cb, &k);
+        }
+        if (k) {
+            sb_fmt(o, "!");
+        } else if (unsafe) {
+            sb_fmt(o, m->compiled ? "~" : "-");
+        } else if (m->implemented && m->compiled && !lys_print_mem(&s, m, LYS_OUT_YANG_COMPILED, 0) && s) {
             sb_fmt(o, "%08x", str_hash(s));
         } else {
             sb_fmt(o, "-");
@@ -925,12 +982,15 @@ run_rich(struct vcase *c)
 {
     struct ly_ctx *ctx = NULL, *ctx2 = NULL;
     uint16_t opts = LY_CTX_NO_YANGLIBRARY | LY_CTX_DISABLE_SEARCHDIRS | LY_CTX_DISABLE_SEARCHDIR_CWD;
-    int f, first = 1;
+    int f, first = 1, flags;
 
     if ((c->nf < 3) || parse_repo(c->f[2])) {
         printf("?");
         return;
     }
+    flags = atoi(c->f[1]);
+    opts |= ((flags & 2) ? LY_CTX_ENABLE_IMP_FEATURES : 0) | ((flags & 4) ? LY_CTX_REF_IMPLEMENTED : 0) |
+            ((flags & 8) ? LY_CTX_ALL_IMPLEMENTED : 0);
     rich_mode = 1;
     if (ly_ctx_new(NULL, opts, &ctx) || ly_ctx_new(NULL, opts, &ctx2)) {
         printf("?ctx");
@@ -939,7 +999,7 @@ run_rich(struct vcase *c)
     }
     ly_ctx_set_module_imp_clb(ctx, imp_clb, NULL);
     ly_ctx_set_module_imp_clb(ctx2, imp_clb, NULL);
-    if (atoi(c->f[1])) {
+    if (flags & 1) {
         ly_ctx_set_options(ctx, LY_CTX_EXPLICIT_COMPILE);
         ly_ctx_set_options(ctx2, LY_CTX_EXPLICIT_COMPILE);
     }
@@ -1011,7 +1071,10 @@ main(void)
     struct vcase c;
 
     ly_set_log_clb(log_cb);
-    ly_log_options(LY_LOSTORE_LAST);
+    ly_log_options(getenv("LYX_DEBUG") ? (LY_LOLOG | LY_LOSTORE_LAST) : LY_LOSTORE_LAST);
+    if (getenv("LYX_DEBUG")) {
+        ly_log_level(LY_LLVRB);
+    }
     while (vnext(&c)) {
         const char *comp = c.f[0];
 
